@@ -288,6 +288,19 @@ thread_local! {
 /// Installs a panic hook that stays silent while a `probe` is running (panics of the code under
 /// test are verdict material, not noise), remembers where the last panic happened, and prints
 /// everything else (harness bugs).
+///
+/// "Inside the crate" = a source location under /repo/ (or, for the experiment tools that build
+/// against a scratch worktree of /repo, under the directory named by DV5_CRATE_ROOT).
+pub fn under_test(loc: &str) -> bool {
+    if loc.starts_with("/repo/") {
+        return true;
+    }
+    match std::env::var("DV5_CRATE_ROOT") {
+        Ok(root) if !root.is_empty() => loc.starts_with(&format!("{}/", root.trim_end_matches('/'))),
+        _ => false,
+    }
+}
+
 pub fn quiet_panics_inside_probes() {
     static ONCE: std::sync::Once = std::sync::Once::new();
     ONCE.call_once(|| {
@@ -302,8 +315,8 @@ pub fn quiet_panics_inside_probes() {
                 "panic".to_string()
             };
             LAST_PANIC.with(|p| *p.borrow_mut() = Some((loc.clone(), msg)));
-            let in_crate = loc.starts_with("/repo/") || loc.starts_with("src/") && !loc.contains("props/") && !loc.contains("rig/") && !loc.contains("peer/");
-            if !IN_PROBE.with(|p| p.get()) && !loc.starts_with("/repo/") {
+            let in_crate = under_test(&loc) || loc.starts_with("src/") && !loc.contains("props/") && !loc.contains("rig/") && !loc.contains("peer/");
+            if !IN_PROBE.with(|p| p.get()) && !under_test(&loc) {
                 let _ = in_crate;
                 default(info);
             }
@@ -321,7 +334,7 @@ pub fn guarded(rep: &mut Report, seed: u64, f: impl FnOnce(&mut Report)) {
     if let Err(payload) = r {
         let last = LAST_PANIC.with(|p| p.borrow().clone());
         match last {
-            Some((loc, msg)) if loc.starts_with("/repo/") => {
+            Some((loc, msg)) if under_test(&loc) => {
                 let prop = rep.property.clone();
                 rep.evaluations += 1;
                 rep.violation(
